@@ -153,6 +153,35 @@ UNITS['positionToIndex_dispatch'] = dict(file=DA, locator=r'vector<optional<pair
     classes=['Dimension', 'SampledDimension', 'SetDimension', 'RangeDimension', 'DataFrameDimension'], pre_rules=[dispatch_rules], subst={'vec_opt_pair': 'vec_opt_pair_v', 'vec_string': 'vec_ustr'}, ret_default='(vec_opt_pair_v){0}')
 UNITS['positionToIndex_dispatch1'] = dict(file=DA, locator=r'optional<ndsize_t>\s+positionToIndex\s*\((?=\s*double\s+position\s*,\s*const\s+string\s*&\s*unit\s*,\s*const\s+PositionMatch\s+match\s*,\s*const\s+Dimension\s*&)',
     classes=['Dimension', 'SampledDimension', 'SetDimension', 'RangeDimension', 'DataFrameDimension', 'nstring'], pre_rules=[dispatch_rules_for('positionToIndex1_')], ret_default='OPT_NONE_ndsize')
+def listconv_rules(ctx, toks):
+    """vector<double> NAME(count) / NAME(static_cast<size_t>(count));  (a vector of count elements created here) -> vec_double_s NAME = mk_vec_double_s(count);
+       dimension.unit() ? *dimension.unit() : "none"  ->  the optional's value or the literal:  opt_nstr_or_none(dimension.unit())"""
+    out = []; i = 0
+    while i < len(toks):
+        t = toks[i]
+        if t.t == 'vec_double' and toks[i + 1].k == 'id' and toks[i + 1].t in ('scaled_start', 'scaled_end') and toks[i + 2].t == '(':
+            out.extend(tokenize('%svec_double_s %s = mk_vec_double_s' % (t.ws, toks[i + 1].t))); ctx.env[toks[i + 1].t] = ('vec_double_s', False); i += 2; fire(ctx, 'vector-count-ctor'); continue
+        if seq_at(toks, i, ['dimension', '.', 'unit', '(', ')', '?', '*', 'dimension', '.', 'unit', '(', ')', ':']) and toks[i + 13].k == 'str':
+            out.extend(tokenize('%sopt_nstr_or(dimension.unit(), nstring_lit(%s))' % (t.ws, toks[i + 13].t))); i += 14; fire(ctx, 'optional-or-literal'); continue
+        out.append(t); i += 1
+    return out
+def units_len(ctx, toks):
+    """units.size() of the (reference) parameter units -> units->n"""
+    out = []; i = 0
+    while i < len(toks):
+        if seq_at(toks, i, ['units', '.', 'size', '(', ')']):
+            out.extend(tokenize('%sunits->n' % toks[i].ws)); i += 5; continue
+        out.append(toks[i]); i += 1
+    return out
+LCL = ['SampledDimension', 'RangeDimension', 'nstring', 'vec_double_s']
+def lconv(kind, cls):
+    return dict(file=DA, locator=r'vector<optional<pair<ndsize_t,\s*ndsize_t>>>\s+positionToIndex\s*\((?=\s*const\s+vector<double>\s*&\s*start_positions\s*,\s*const\s+vector<double>\s*&\s*end_positions\s*,\s*const\s+vector<string>\s*&\s*units\s*,\s*const\s+RangeMatch\s+range_matching\s*,\s*const\s+%s\s*&)' % cls,
+                classes=LCL, pre_rules=[listconv_rules], post_rules=[units_len], subst={'vec_opt_pair': 'vec_opt_pair_v', 'vec_string': 'vec_ustr'}, ret_default='(vec_opt_pair_v){0}',
+                calls={'scalePositions': 'scalePositions_rec'}, overloads={cls + '_indexOf': {3: cls + '_indexOf_lists'}})
+UNITS['positionToIndex_list_sampled'] = lconv('sampled', 'SampledDimension')
+UNITS['positionToIndex_list_range'] = lconv('range', 'RangeDimension')
+LCX = ('int gh_lc_vectors, gh_lc_scale_calls, gh_lc_scale_units, gh_lc_scale_dim_unit, gh_lc_scale_out_s, gh_lc_scale_out_e, gh_lc_axis_calls, gh_lc_axis_s, gh_lc_axis_e, gh_lc_axis_tag, gh_lc_axis_after_scale;\n'
+       'const double *gh_lc_scale_starts, *gh_lc_scale_ends; size_t gh_lc_len_s, gh_lc_len_e; RangeMatch gh_lc_axis_match;\n')
 DPX = 'int gh_dp_calls, gh_dp_kind, gh_dp_with_units, gh_dp_units_id, gh_dp_dim_tag; const double *gh_dp_starts, *gh_dp_ends; RangeMatch gh_dp_match; double gh_dp1_position; int gh_dp1_unit; PositionMatch gh_dp1_match;\n'
 EXTRA = ('opt_ndsize gh_ge; opt_pair gh_pair; double gh_pair_start, gh_pair_end; RangeMatch gh_pair_match; int gh_pair_calls; int gh_unspecified; RangeMatch gh_goc_match, gh_tagged_match, gh_fd_match;\n'
          'int gh_views; size_t gh_view_count_rank, gh_view_offset_rank; ndsize_t gh_view_count_k, gh_view_offset_k; const ndsize_t *gh_view_extent_dims;\n'
@@ -167,13 +196,14 @@ JOBS = [job('Tag_getFeature', ['Tag_backend_getFeature']), job('Tag_getReference
 JOBS.append(dict(name='tag_assemble_dim', bodies=['NDSize_size', 'NDSize_at', 'tag_assemble_dim'], enforce=['tag_assemble_dim'], replace=['positionToIndex_scalar'], extra_c=EXTRA,
                  defines=['ND_FULL_ALLOC'], cbmc_flags=UNW, expect_kinds=['postcondition', 'precondition'], timeout=900))
 JOBS.append(dict(name='getMaxExtent', bodies=['getMaxExtent'], enforce=['getMaxExtent'], replace=[], extra_c=EXTRA, cbmc_flags=UNW, expect_kinds=['postcondition'], timeout=300))
+JOBS += [dict(name=fn, bodies=[fn], enforce=[fn], replace=[], includes=['c05_listconv.h'], extra_c=LCX, expect_kinds=['postcondition'], timeout=300) for fn in ('positionToIndex_list_sampled', 'positionToIndex_list_range')]
 JOBS.append(dict(name='positionToIndex_dispatch1', bodies=['positionToIndex_dispatch1'], enforce=['positionToIndex_dispatch1'], replace=[], includes=['c05_dispatch.h'], extra_c=DPX, expect_kinds=['postcondition'], timeout=300))
 JOBS.append(dict(name='positionToIndex_dispatch', bodies=['positionToIndex_dispatch'], enforce=['positionToIndex_dispatch'], replace=[], includes=['c05_dispatch.h'], extra_c=DPX, expect_kinds=['postcondition'], timeout=300))
 for j in rank_cases(job('featureData_tag', ['taggedData_tag', 'mk_DataView_3'], split=True, split_workers=3)):
     r = int(j['name'].split('rank=')[1].rstrip(']'))
     j['tiers'] = ('quick', 'thorough') if r <= 3 else ('thorough',)
     JOBS.append(j)
-SPEC = dict(contracts=['nd.h', 'dv.h', 'c05_tag.h', 'c05_dispatch.h'], stubs=['dataarray.h'], include_order=['nd.h', 'dataarray.h', 'dv.h', 'c05_tag.h'], units=UNITS, jobs=JOBS,
+SPEC = dict(contracts=['nd.h', 'dv.h', 'c05_tag.h', 'c05_dispatch.h', 'c05_listconv.h'], stubs=['dataarray.h'], include_order=['nd.h', 'dataarray.h', 'dv.h', 'c05_tag.h'], units=UNITS, jobs=JOBS,
             trusted_base=['CBMC 6.11.0 (C front end, --dfcc, SAT back end)', 'vlib/cxx2c.py idiom map'] + ND_TRUST +
                          ['Tag / Feature / DataArray handles abstracted to the state these functions read (counts, link type, extent, none-ness)',
                           'assumed: the contract of the DataView constructor (proved for the constructor itself in C17) restated on the construction expression mk_DataView_3',
